@@ -169,6 +169,10 @@ func (ps *protoSpec) specVerify(eWant *pt, pubx, puby, r, s *pt) {
 			ps.need("VERIFY-RANGE", ps.prove(o, pVal(x), token.GEQ, pC(1)) && ps.prove(o, pVal(x), token.LSS, pSym("N")), "1 <= %s <= n-1 does not follow from the guards of an accepting path", x)
 		}
 		c, isC := o.vals[0].(pCond)
+		if isC && c.raw == "bytes" && c.a != nil && c.b != nil && c.a.op == "be" && c.b.op == "be" && c.a.k == c.b.k {
+			// equality of two fixed-width encodings of the same width is equality of the encoded values
+			c = pCond{a: c.a.args[0], b: c.b.args[0], op: c.op, neg: c.neg}
+		}
 		if !isC || c.a == nil || c.raw != "" {
 			ps.need("VERIFY-VERDICT", false, "the verdict of an accepting path is not an integer comparison (%s)", ps.d.show(o.st, o.vals[0]))
 			continue
@@ -212,7 +216,12 @@ func (ps *protoSpec) specVerify(eWant *pt, pubx, puby, r, s *pt) {
 			continue
 		}
 		wantPub := pOp("cat", pLit([]byte{4}), pubx, puby)
-		ps.need("VERIFY-PUBKEY", PT.args[1].op == "decode" && PT.args[1].args[0].String() == wantPub.String() && ps.hasPred(o, "decodes("+wantPub.String()+")", true), "the point P is %s; required: the canonical on-curve decoding of 04 || pubx || puby, checked for success", PT.args[1])
+		viaDecoder := PT.args[1].op == "decode" && PT.args[1].args[0].String() == wantPub.String() && ps.hasPred(o, "decodes("+wantPub.String()+")", true)
+		// or built from the two coordinates after each was decoded canonically and the curve equation was checked
+		direct := PT.args[1].op == "xy" && PT.args[1].args[0].String() == pVal(pubx).String() && PT.args[1].args[1].String() == pVal(puby).String() &&
+			ps.hasPred(o, "canonicalelem("+pubx.String()+")", true) && ps.hasPred(o, "canonicalelem("+puby.String()+")", true) &&
+			ps.hasPred(o, "onCurve("+pVal(pubx).String()+","+pVal(puby).String()+")", true)
+		ps.need("VERIFY-PUBKEY", viaDecoder || direct, "the point P is %s; required: the canonical on-curve decoding of 04 || pubx || puby, checked for success (or the point built from both coordinates after their canonical decoding and a successful curve-equation check)", PT.args[1])
 		tT := PT.args[2]
 		ps.need("VERIFY-T", ps.residueOf(o, tT, polyOf(pAdd(pVal(r), pVal(s)))) && ps.prove(o, ps.d.normInt(o.st, tT), token.GEQ, pC(1)), "the point scalar %s is not the non-zero canonical residue of r + s modulo n on an accepting path", tT)
 		ps.need("VERIFY-FINITE", ps.hasPred(o, "isInf("+PT.String()+")", false), "the accepting path does not exclude [s]G + [t]P being the point at infinity")
